@@ -18,8 +18,40 @@ BELOW_GLYPH = ("layer.lib", "glyph.lib", "contour", "component", "anchor", "guid
 # generation of histories
 # ---------------------------------------------------------------------------------------
 
-def gen_ops(rng, spec, nops, save_modes, p_save=0.12, structures=("package",)):
-    """ops over a *copy* of spec that tracks what exists, so most ops are meaningful"""
+def gen_sub_edit(rng, ln, present):
+    """an edit of ONE object below a glyph (or of the glyph's image / lib) through that object's own API; indices are
+    taken modulo what the glyph holds when the op runs (no-op on a glyph that holds nothing of the kind)"""
+    gn = rng.choice(present) if present and rng.random() < 0.9 else rng.choice(fg.GLYPH_NAMES)
+    kind = rng.choice(["contourmove", "addpoint", "compmove", "compbase", "anchorset", "anchorset", "guideset", "imgcolor",
+                       "imgset", "libkey"])
+    i = rng.randrange(4)
+    if kind == "contourmove":
+        v = [i, rng.randint(-3, 3), rng.randint(-3, 3)]
+    elif kind == "addpoint":
+        v = [i, rng.randint(0, 300), rng.randint(0, 300)]
+    elif kind == "compmove":
+        v = [i, rng.choice([0, 0, 1, -2, 5]), rng.choice([0, 3, -1])]
+    elif kind == "compbase":
+        v = [i, rng.choice(fg.BASES)]
+    elif kind == "anchorset":
+        f = rng.choice(["x", "y", "name"])
+        v = [i, f, rng.choice(["top", "bottom", "mid", None]) if f == "name" else rng.choice([0, 100, 250, 500])]
+    elif kind == "guideset":
+        f = rng.choice(["name", "color"])
+        v = [i, f, rng.choice([None, "gl", "g2"]) if f == "name" else rng.choice([None] + fg.COLORS)]
+    elif kind == "imgcolor":
+        v = rng.choice([None] + fg.COLORS)
+    elif kind == "imgset":
+        v = None if rng.random() < 0.3 else {"fileName": rng.choice(fg.IMAGE_NAMES), "xOffset": rng.randint(0, 3),
+                                              "color": rng.choice([None, fg.COLORS[2]])}
+    else:
+        v = ["com.a.k1", rng.choice([None, 7, "v", [1, 2]])]
+    return ["gfield", ln, gn, kind, v]
+
+
+def gen_ops(rng, spec, nops, save_modes, p_save=0.12, structures=("package",), sub_edits=0.0):
+    """ops over a *copy* of spec that tracks what exists, so most ops are meaningful; `sub_edits` = share of
+    operations that edit one object below a glyph (C01/C06: the dirty flags of those objects are compared)"""
     sh = copy.deepcopy(spec)
     ops = []
     last_img = dict(spec["images"])
@@ -34,6 +66,10 @@ def gen_ops(rng, spec, nops, save_modes, p_save=0.12, structures=("package",)):
                 return l
 
     for _ in range(nops):
+        if sub_edits and rng.random() < sub_edits:
+            ln = rng.choice(layers())
+            ops.append(gen_sub_edit(rng, ln, sorted(layer(ln)["glyphs"])))
+            continue
         r = rng.random()
         ln = rng.choice(layers())
         L = layer(ln)
@@ -202,6 +238,42 @@ EMPTY_GLYPH = {"unicodes": [], "width": 0, "height": 0, "note": None, "lib": {},
                "components": [], "anchors": [], "guidelines": []}
 
 
+SUB_FIELDS = ("contourmove", "addpoint", "compmove", "compbase", "anchorset", "guideset", "imgcolor", "imgset")
+ANCHOR_FIELD = {"x": 0, "y": 1, "name": 2}
+GUIDE_FIELD = {"name": 3, "color": 4}
+
+
+def shadow_sub_edit(gl, f, v):
+    """the content after an edit of one object below the glyph (see gen_sub_edit)"""
+    if f == "contourmove":
+        if gl["contours"]:
+            for p in gl["contours"][v[0] % len(gl["contours"])]["points"]:
+                p[0] += v[1]
+                p[1] += v[2]
+    elif f == "addpoint":
+        if gl["contours"]:
+            gl["contours"][v[0] % len(gl["contours"])]["points"].append([v[1], v[2], "line", False, None, None])
+    elif f == "compmove":
+        if gl["components"]:
+            c = gl["components"][v[0] % len(gl["components"])]
+            c[1][4] += v[1]
+            c[1][5] += v[2]
+    elif f == "compbase":
+        if gl["components"]:
+            gl["components"][v[0] % len(gl["components"])][0] = v[1]
+    elif f == "anchorset":
+        if gl["anchors"]:
+            gl["anchors"][v[0] % len(gl["anchors"])][ANCHOR_FIELD[v[1]]] = v[2]
+    elif f == "guideset":
+        if gl["guidelines"]:
+            gl["guidelines"][v[0] % len(gl["guidelines"])][GUIDE_FIELD[v[1]]] = v[2]
+    elif f == "imgcolor":
+        if gl["image"] is not None:
+            gl["image"]["color"] = v
+    elif f == "imgset":
+        gl["image"] = copy.deepcopy(v)
+
+
 class Shadow(object):
     def __init__(self, spec):
         self.s = copy.deepcopy(spec)
@@ -265,6 +337,8 @@ class Shadow(object):
                     gl["anchors"] = []
                 elif f == "clearcomps":
                     gl["components"] = []
+                elif f in SUB_FIELDS:
+                    shadow_sub_edit(gl, f, v)
                 elif f == "move":
                     dx, dy = v
                     for c in gl["contours"]:
@@ -547,6 +621,36 @@ class Impl(object):
                         g.clearAnchors()
                     elif f == "clearcomps":
                         g.clearComponents()
+                    elif f == "contourmove":
+                        if len(g):
+                            g[v[0] % len(g)].move((v[1], v[2]))
+                    elif f == "addpoint":
+                        if len(g):
+                            g[v[0] % len(g)].addPoint((v[1], v[2]), segmentType="line")
+                    elif f == "compmove":
+                        if g.components:
+                            g.components[v[0] % len(g.components)].move((v[1], v[2]))
+                    elif f == "compbase":
+                        if g.components:
+                            g.components[v[0] % len(g.components)].baseGlyph = v[1]
+                    elif f == "anchorset":
+                        if g.anchors:
+                            setattr(g.anchors[v[0] % len(g.anchors)], v[1], v[2])
+                    elif f == "guideset":
+                        if g.guidelines:
+                            setattr(g.guidelines[v[0] % len(g.guidelines)], v[1], v[2])
+                    elif f == "imgcolor":
+                        im = g.image
+                        if im.fileName is not None:
+                            im.color = v
+                    elif f == "imgset":
+                        if v is None:
+                            g.image = None
+                        else:
+                            g.image = dict(fileName=v["fileName"], xScale=1, xyScale=0, yxScale=0, yScale=1,
+                                           xOffset=v["xOffset"], yOffset=0, color=v["color"])
+                    else:
+                        raise ValueError(op)
             elif k == "lnew":
                 self.keep.append(font.newLayer(op[1]))
             elif k == "ldel":
@@ -909,7 +1013,7 @@ def scenario(rng, spec):
     return []
 
 
-def gen_case(rng, tier, save_modes, structures=("package", "zip"), maxops=None, p_save=0.12):
+def gen_case(rng, tier, save_modes, structures=("package", "zip"), maxops=None, p_save=0.12, sub_edits=0.0):
     spec = fg.gen_font(rng)
     structure = rng.choice(structures)
     origin = "memory" if rng.random() < 0.2 else "disk"
@@ -925,7 +1029,7 @@ def gen_case(rng, tier, save_modes, structures=("package", "zip"), maxops=None, 
             for o in sc:
                 sh0.do(o)
             start = sh0.s
-    ops = pre + gen_ops(rng, start, nops, save_modes, p_save=p_save, structures=structures)
+    ops = pre + gen_ops(rng, start, nops, save_modes, p_save=p_save, structures=structures, sub_edits=sub_edits)
     if not any(o[0] == "save" for o in ops):
         ops.append(["save", rng.choice(save_modes), structure])
     if origin == "memory" :
@@ -976,6 +1080,137 @@ def part_value(spec, part):
 PART_OF_OP = {"info": "info", "fguide": "info", "fguideattr": "info", "kern": "kerning", "group": "groups", "feat": "features", "lib": "lib"}
 
 
+# --- what an operation does to the flags below a glyph, as `SubFlags.Prim`s (computed from the shadow content alone) ---
+
+K_CONTOUR, K_COMPONENT, K_ANCHOR, K_GUIDELINE = Atom("contour"), Atom("component"), Atom("anchor"), Atom("guideline")
+TOUCH, IMGGET, IMGCLEAR, LIBEDIT = Atom("touch"), Atom("imgget"), Atom("imgclear"), Atom("libedit")
+
+
+def imgedit(image):
+    """an effective change of the image object; afterwards it holds the file name of `image`"""
+    return [Atom("imgedit"), opt(image["fileName"] if image is not None else None)]
+
+
+def shape_of(g):
+    """what the glyph's GLIF holds: number of contours, the base glyph of each component, numbers of anchors and
+    guidelines, the file name of the image element"""
+    return [len(g["contours"]), [c[0] for c in g["components"]], len(g["anchors"]), len(g["guidelines"]),
+            opt(g["image"]["fileName"] if g["image"] is not None else None)]
+
+
+def _dict_flag(values):
+    """the flag an anchor / guideline built from a dict arrives with: its guarded setters ran on every given value"""
+    return any(v is not None for v in values)
+
+
+def assign_prims(old, new):
+    """fontgen.apply_gspec(glyph, new) on a glyph whose content is `old`"""
+    ps = []
+    for f in ("width", "height", "unicodes", "note"):
+        if old[f] != new[f]:
+            ps.append(TOUCH)
+    ps.append(LIBEDIT)                                   # glyph.lib = …: `update` always flags the lib
+    ps.append([Atom("clear"), K_CONTOUR])
+    ps.append([Atom("clear"), K_COMPONENT])
+    for _ in new["contours"]:
+        ps.append([Atom("append"), K_CONTOUR, False])    # the pen's endPath clears the flag of the contour it built
+    for _ in new["components"]:
+        ps.append([Atom("append"), K_COMPONENT, True])   # built through the component's setters
+    ps.append([Atom("clear"), K_ANCHOR])
+    for a in new["anchors"]:
+        ps.append([Atom("append"), K_ANCHOR, _dict_flag(a)])
+    ps.append([Atom("clear"), K_GUIDELINE])
+    for gl in new["guidelines"]:
+        ps.append([Atom("append"), K_GUIDELINE, _dict_flag(gl)])
+    if new["image"] is None:
+        ps.append(IMGCLEAR)
+    else:
+        ps.append(IMGGET)
+        if old["image"] != new["image"]:
+            ps.append(imgedit(new["image"]))
+    return ps
+
+
+def copy_prims(src):
+    """Glyph.copyDataFromGlyph(source) on a glyph Layer.newGlyph has just made"""
+    ps = []
+    for f in ("width", "height", "unicodes", "note"):
+        if EMPTY_GLYPH[f] != src[f]:
+            ps.append(TOUCH)
+    ps.append([Atom("clear"), K_GUIDELINE])
+    for gl in src["guidelines"]:
+        ps.append([Atom("append"), K_GUIDELINE, True])
+    ps.append([Atom("clear"), K_ANCHOR])
+    for a in src["anchors"]:
+        ps.append([Atom("append"), K_ANCHOR, True])
+    ps.append(IMGGET)
+    if src["image"] is not None:
+        ps.append(imgedit(src["image"]))
+    for _ in src["contours"]:
+        ps.append([Atom("append"), K_CONTOUR, False])
+    for _ in src["components"]:
+        ps.append([Atom("append"), K_COMPONENT, True])
+    ps.append(LIBEDIT)
+    return ps
+
+
+def field_prims(old, f, v):
+    """one `gfield` op on a glyph whose content is `old`"""
+    if f in ("width", "unicodes", "note"):
+        return [TOUCH] if old[f] != v else []
+    if f == "libkey":
+        if v[1] is None:
+            return [LIBEDIT] if v[0] in old["lib"] else []
+        return [] if (v[0] in old["lib"] and old["lib"][v[0]] == v[1]) else [LIBEDIT]
+    if f == "move":
+        ps = [[Atom("editall"), K_CONTOUR]]              # Contour.move is not guarded
+        if v[0] or v[1]:
+            ps += [[Atom("editall"), K_COMPONENT], [Atom("editall"), K_ANCHOR]]
+        return ps
+    if f == "inscontour":
+        return [[Atom("insert"), K_CONTOUR, 0, True]] if v[0] == "first" else [[Atom("append"), K_CONTOUR, True]]
+    if f == "addanchor":
+        return [[Atom("append"), K_ANCHOR, _dict_flag(v)]]
+    if f == "addguide":
+        return [[Atom("append"), K_GUIDELINE, _dict_flag(v)]]
+    if f == "clearanchors":
+        return [[Atom("clear"), K_ANCHOR]]
+    if f == "clearcomps":
+        return [[Atom("clear"), K_COMPONENT]]
+    if f in ("contourmove", "addpoint"):
+        n = len(old["contours"])
+        return [[Atom("edit"), K_CONTOUR, v[0] % n]] if n else []
+    if f == "compmove":
+        n = len(old["components"])
+        return [[Atom("edit"), K_COMPONENT, v[0] % n]] if n and (v[1] or v[2]) else []
+    if f == "compbase":
+        n = len(old["components"])
+        return [[Atom("edit"), K_COMPONENT, v[0] % n]] if n and old["components"][v[0] % n][0] != v[1] else []
+    if f == "anchorset":
+        n = len(old["anchors"])
+        return [[Atom("edit"), K_ANCHOR, v[0] % n]] if n and old["anchors"][v[0] % n][ANCHOR_FIELD[v[1]]] != v[2] else []
+    if f == "guideset":
+        n = len(old["guidelines"])
+        return [[Atom("edit"), K_GUIDELINE, v[0] % n]] if n and old["guidelines"][v[0] % n][GUIDE_FIELD[v[1]]] != v[2] else []
+    if f == "imgcolor":
+        ps = [IMGGET]
+        if old["image"] is not None and old["image"]["color"] != v:
+            ps.append(imgedit(old["image"]))
+        return ps
+    if f == "imgset":
+        if v is None:
+            return [IMGCLEAR]
+        return [IMGGET] + ([imgedit(v)] if old["image"] != v else [])
+    raise ValueError(f)
+
+
+def bases_given(old, f, v):
+    """the base glyph names handed to components by a `gfield` op (the component starts to observe that glyph)"""
+    if f == "compbase" and old["components"] and old["components"][v[0] % len(old["components"])][0] != v[1]:
+        return [v[1]]
+    return []
+
+
 def model_lines(case):
     """the same history, abstracted to what the persistence models see"""
     blobs = Blobs()
@@ -992,6 +1227,12 @@ def model_lines(case):
                 first = False
             else:
                 lines.append(q([Atom("lnew"), l["name"]]))
+            if l["color"] is not None:
+                lines.append(q([Atom("ltouch"), l["name"]]))
+            lines.append(q([Atom("llibedit"), l["name"]]))           # layer.lib.update(…) always flags the lib
+            for gn, g in l["glyphs"].items():
+                lines.append(q([Atom("gnew"), l["name"], gn]))
+                lines.append(q([Atom("gedit"), l["name"], gn, assign_prims(EMPTY_GLYPH, g), [c[0] for c in g["components"]]]))
         lines.append(q([Atom("ldefault"), spec["default"]]))
         lines.append(q([Atom("pset"), Atom("info"), blobs.of(part_value(spec, "info"))]))
         for part in ("kerning", "groups", "features", "lib"):
@@ -1007,11 +1248,24 @@ def model_lines(case):
         lines.append([Atom("init"), [[n, sd] for n, sd in spec["images"].items()],
                       [[n, 100 + sd] for n, sd in spec["data"].items()],
                       [[p, blobs.of(part_value(spec, p))] for p in ("info", "groups", "kerning", "features", "lib")],
-                      [[n, i] for i, n in enumerate(names)], names.index(spec["default"]), spec["default"]])
+                      [[n, i] for i, n in enumerate(names)], names.index(spec["default"]), spec["default"],
+                      [[i, [[gn, shape_of(g)] for gn, g in l["glyphs"].items()]] for i, l in enumerate(spec["layers"])]])
     for part in case.get("preread", []):
         lines.append(q([Atom("ptouch"), Atom(part)]))
+    for ln, gn in case.get("preread_glyphs", []):
+        lines.append(q([Atom("gget"), ln, gn]))
     for op in case["ops"]:
         k = op[0]
+        old = None
+        if k in ("gget", "gread", "gdel", "grename", "gset", "gfield"):
+            L0 = sh.layer(op[1])
+            old = copy.deepcopy(L0["glyphs"].get(op[2])) if L0 is not None else None
+        lchanged = False
+        if k == "lcolor":
+            lchanged = sh.layer(op[1])["color"] != op[2]
+        elif k == "llib":
+            lib0 = sh.layer(op[1])["lib"]
+            lchanged = (op[2] in lib0) if op[3] is None else (op[2] not in lib0 or lib0[op[2]] != op[3])
         ok = sh.do(op) if k != "save" else True
         if k in PART_OF_OP:
             part = PART_OF_OP[k]
@@ -1037,8 +1291,28 @@ def model_lines(case):
             lines.append([Atom("ldefault"), op[1]])
         elif k == "lorder":
             lines.append([Atom("lorder"), list(op[1])])
+        elif k == "lcolor":
+            lines.append([Atom("ltouch"), op[1]] if lchanged else [Atom("noop")])
+        elif k == "llib":
+            lines.append([Atom("llibedit"), op[1]] if lchanged else [Atom("noop")])
+        elif k in ("gget", "gread"):
+            lines.append([Atom("gget"), op[1], op[2]])
+        elif k == "gnew":
+            lines.append([Atom("gnew"), op[1], op[2]])
+        elif k == "ginsert":
+            lines.append([Atom("ginsert"), op[1], op[2], copy_prims(op[3]), [c[0] for c in op[3]["components"]]])
+        elif k == "gdel":
+            lines.append([Atom("gdel"), op[1], op[2]])
+        elif k == "grename":
+            lines.append([Atom("grename"), op[1], op[2], op[3]])
+        elif k == "gset":
+            lines.append([Atom("gedit"), op[1], op[2], assign_prims(old, op[3]) if old is not None else [],
+                          [c[0] for c in op[3]["components"]] if old is not None else []])
+        elif k == "gfield":
+            lines.append([Atom("gedit"), op[1], op[2], field_prims(old, op[3], op[4]) if old is not None else [],
+                          bases_given(old, op[3], op[4]) if old is not None else []])
         elif k == "save":
-            lines.append([Atom("save"), Atom("SAVEMODE")])      # patched below
+            lines.append([Atom("save"), Atom("SAVEMODE")])      # mode patched below
         else:
             lines.append([Atom("noop")])
     # a save is in place iff the font has a path by then and the mode says so
@@ -1096,8 +1370,40 @@ def disk_snapshot(impl, blobs):
             [Atom("layercontents"), [[n, d == "glyphs"] for n, d in lc]], flags]
 
 
+def sub_flags(g):
+    """the flags of what a glyph holds; contours that are still in their shallow form are no objects yet"""
+    if g._shallowLoadedContours is not None:
+        cont = [False] * len(g._shallowLoadedContours)
+    else:
+        cont = [bool(c.dirty) for c in g._contours]
+    return [cont, [bool(c.dirty) for c in g._components], [bool(a.dirty) for a in g._anchors],
+            [bool(x.dirty) for x in g._guidelines], opt(None if g._image is None else bool(g._image.dirty)),
+            bool(g._lib is not None and g._lib.dirty)]
+
+
+def flags_snapshot(font):
+    """the dirty flag of every object of the tree, as the persist driver prints it (`encFlags`)"""
+    layers = []
+    for ln in font.layers.layerOrder:
+        layer = font.layers[ln]
+        glyphs = [Atom("set")]
+        for gn, g in layer._glyphs.items():
+            sf = sub_flags(g)
+            if g.dirty or any(sf[0]) or any(sf[1]) or any(sf[2]) or any(sf[3]) or (g._image is not None and g._image.dirty) or sf[5]:
+                glyphs.append([gn, bool(g.dirty)] + sf)
+        layers.append([ln, bool(layer.dirty), bool(layer._lib is not None and layer._lib.dirty), glyphs])
+    return [Atom("flags"), bool(font.dirty), bool(font.layers.dirty), [part_flags(font, p)[1] for p in ("info", "groups", "kerning", "features")],
+            bool(font.images.dirty), bool(font.data.dirty), layers]
+
+
 def model_out(impl, op, status, blobs, ok_expected):
     """what the persist driver prints for this op, computed from the real font"""
+    if (op[0] in PART_OF_OP and PART_OF_OP[op[0]] == "lib") or (op[0] == "touch" and op[1] == "lib"):
+        return Atom("ok")          # the font lib also holds public.glyphOrder (C12): its lines are `quiet`
+    return [Atom("out"), component_out(impl, op, status, blobs), flags_snapshot(impl.font)]
+
+
+def component_out(impl, op, status, blobs):
     k = op[0]
     font = impl.font
     st = Atom("ok") if status == "ok" else [Atom("err"), Atom(status.split(":")[1])]
@@ -1116,4 +1422,6 @@ def model_out(impl, op, status, blobs, ok_expected):
         if status != "ok":
             return [st]
         return [Atom("ok"), disk_snapshot(impl, blobs)]
-    return Atom("ok")
+    if k in ("lcolor", "llib"):
+        return Atom("ok")
+    return st
